@@ -266,9 +266,11 @@ def run(ctx: Ctx):
         n_cfg = 1 if ctx.quick else 3
         cases = []
         for i in range(n_cfg):
-            cfg = dict(CFGS[(i + ctx.seed) % 3 if ctx.quick else i])
+            # quick: always a NON-default configuration (defaults hide a range that is silently ignored)
+            k = 1 + (ctx.seed % 2) if ctx.quick else i
+            cfg = dict(CFGS[k])
             if task == "locomotion":
-                cfg.update(LOCO_EXTRA[(i + ctx.seed) % 3 if ctx.quick else i])
+                cfg.update(LOCO_EXTRA[k])
             cases.append({"task": task, "cfg": cfg, "key": ctx.seed * 100 + i, "n_keys": ctx.n(48, 1024), "steps": ctx.n(40, 400) if i == 0 else 0})
         payloads.append(cases)
     run_pool(ctx, "checks.c20_g1", "env_worker", payloads, procs=3)
